@@ -121,27 +121,27 @@ fn find_op_of_comma<T>(parsed_tokens: &[ParsedToken<T>]) -> Option<usize>
 where
     T: DataType,
 {
-    let paren_counter = parsed_tokens.iter().rev().scan(0, |state, pt| {
-        *state += match pt {
-            ParsedToken::Paren(Paren::Close) => -1,
-            ParsedToken::Paren(Paren::Open) => 1,
-            _ => 0,
-        };
-        Some(*state)
-    });
-
-    let rev_idx = parsed_tokens
+    // the opening parenthesis of the innermost group that is still open
+    let mut paren_cnt = 0;
+    let open_idx = parsed_tokens
         .iter()
-        .rev()
-        .zip(paren_counter)
         .enumerate()
-        .find(|(_, (pt, paren_cnt))| {
-            matches!(pt, 
-            ParsedToken::Op(_) if *paren_cnt == 1)
+        .rev()
+        .find(|(_, pt)| {
+            paren_cnt += match pt {
+                ParsedToken::Paren(Paren::Close) => -1,
+                ParsedToken::Paren(Paren::Open) => 1,
+                _ => 0,
+            };
+            paren_cnt == 1
         })
-        .map(|(i, _)| i);
+        .map(|(i, _)| i)?;
 
-    rev_idx.map(|ridx| parsed_tokens.len() - 1 - ridx)
+    // the operator of the function call syntax is directly in front of that parenthesis
+    match open_idx.checked_sub(1).map(|i| &parsed_tokens[i]) {
+        Some(ParsedToken::Op(_)) => Some(open_idx - 1),
+        _ => None,
+    }
 }
 
 /// Parses tokens of a text with regexes and returns them as a vector
